@@ -2,9 +2,11 @@ package mon
 
 import (
 	"fmt"
+	"sort"
 	"strings"
 
 	"github.com/microcosm-cc/bluemonday"
+	"github.com/microcosm-cc/bluemonday/css"
 	"golang.org/x/net/html"
 
 	"verif/harness/internal/core"
@@ -191,6 +193,67 @@ func runC04(ctx *core.Ctx) {
 		}
 	})
 
+	// outside-vocabulary enumeration: every element of a broad pool x every attribute of a broad
+	// pool (incl. style with one accepted declaration per documented CSS property, event
+	// handlers, srcset, form/media/meta attributes) as single-tag inputs: a policy that quietly
+	// admits more than its documentation says is seen even without a hostile input
+	var elPool []string
+	elPool = append(elPool, allElementVocab...)
+	for el := range vocab.els {
+		elPool = append(elPool, el)
+	}
+	sort.Strings(elPool)
+	attrPool := append([]string{}, gen.AttrVocab...)
+	attrPool = append(attrPool, "class", "style", "onclick", "onerror", "srcset", "name", "for", "form", "formaction", "method", "enctype", "autoplay", "controls", "loop", "muted", "preload",
+		"data", "codebase", "archive", "http-equiv", "content", "charset", "media", "sizes", "referrerpolicy", "loading", "decoding", "ismap", "longdesc", "hreflang", "download", "ping", "accept", "pattern", "placeholder", "required", "checked", "disabled", "readonly", "multiple", "selected", "wrap", "rows", "cols", "maxlength", "bgcolor", "color", "face", "size", "border", "cellpadding", "cellspacing", "frame", "rules", "hspace", "vspace", "marginwidth", "allow", "allowfullscreen", "srcdoc", "xml:lang", "xml:base", "xlink:href", "is", "itemprop", "itemscope", "role", "aria-label", "hidden", "draggable", "spellcheck", "translate", "nonce", "part", "slot", "inputmode", "enterkeyhint", "popover")
+	var styleDecls []string
+	{
+		pool := gen.CSSTokenPool()
+		for _, prop := range gen.CSSProperties {
+			h := css.GetDefaultHandler(prop)
+			for _, t := range pool {
+				if !strings.ContainsAny(t, "\"'<>&") && h(t) {
+					styleDecls = append(styleDecls, prop+": "+t)
+					break
+				}
+			}
+		}
+	}
+	ctx.Extra("outside_vocabulary_elements", len(elPool))
+	ctx.Extra("outside_vocabulary_attributes", len(attrPool))
+	ctx.Extra("style_declarations_tried_per_element", len(styleDecls))
+	ctx.Run("vocabulary-enumeration", len(elPool), func(cs *core.Case) {
+		el := elPool[cs.Index]
+		if strings.ContainsAny(el, "<\"=' /") || el == "plaintext" {
+			return
+		}
+		lc := core.LocalCounts{}
+		r := cs.R
+		try := func(k, v string) {
+			in := "<" + el + " " + k + `="` + gen.CanonEscape(v) + `">x</` + el + ">"
+			out := ugcEnv.Pol.Sanitize(in)
+			cs.Eval()
+			lc["vocabulary_probes"]++
+			judgeUGC(cs, in, out, 0, lc)
+			if out != "x" {
+				cs.Nontrivial(core.Hash("vocab", in))
+			}
+		}
+		for _, k := range attrPool {
+			if strings.ContainsAny(k, "\"'<>= ") || k == "" {
+				continue
+			}
+			vals := []string{"x", "1", "http://example.org/", "left", ugcEnv.AttrValue(r, el, k)}
+			for _, v := range vals {
+				try(k, v)
+			}
+		}
+		for _, d := range styleDecls {
+			try("style", d)
+		}
+		cs.Flush(lc)
+	})
+
 	// converse: conforming documents pass unchanged apart from the predicted rel=nofollow
 	ctx.Run("conforming", ctx.N(300, 3000), func(cs *core.Case) {
 		lc := core.LocalCounts{}
@@ -221,6 +284,7 @@ func runC04(ctx *core.Ctx) {
 	ctx.Floor("ugc_dom_elements_judged", 50000)
 	ctx.Floor("strict_outputs_judged", 50000)
 	ctx.Floor("conforming_documents", 10000)
+	ctx.Floor("vocabulary_probes", 50000)
 	_ = gen.Pieces
 }
 
